@@ -674,7 +674,7 @@ class Runner:
                 kind = w.task_kind[n]
                 if isinstance(e, BackendError) and kind in ('_discard_conn', '_transfer', '_disconnect', 'acquire'):
                     continue      # an injected failure propagating where the code lets it
-                w.problems.append(('task-exception', f'task {kind} died with {e!r}'))
+                w.problems.append((f'task-exception:{kind}:{type(e).__name__}', f'task {kind} died with {e!r}'))
 
     # --------------------------------------------------------------- choose
     def enabled(self, fair: bool):
@@ -1144,7 +1144,7 @@ class Tie:
                 f'ht={int(pool._htick is not None)} gcreq={pool._gc_requests} gct={gct} '
                 f'wl={_nl(self.uid(b) for b in pool._new_blocks_waitlist)} '
                 f'oq={_nl(self.uid(b) for b in pool._blocks_over_quota)} '
-                f'ph={sum(w.phantom_blocks.values())} err={int(raised)}')
+                f'err={int(raised)}')
         parts = [head]
         # waiter futures -> ids
         fut_id = {}
@@ -1225,7 +1225,7 @@ C15_KEYS = {
 }
 C16_KEYS = {
     'lost-wakeup', 'waiters-mismatch', 'queue-mismatch', 'early-abort', 'transfer-disconnect-failure',
-    'loop-exception', 'task-exception', 'acquire-raised', 'waiter-on-dropped-block', 'step-nontermination', 'woken-lost-place',
+    'loop-exception', 'acquire-raised', 'waiter-on-dropped-block', 'step-nontermination', 'woken-lost-place',
 }
 KEY_RENAME = {'loop-exception': 'tick-raised'}
 
@@ -1268,7 +1268,10 @@ def run_check(ctx: 'core.Ctx', which: str):
     required = {
         'C15': ['EdbVerif.C15.inv_init', 'EdbVerif.C15.inv_step', 'EdbVerif.C15.inv_run',
                 'EdbVerif.C15.usage_exact', 'EdbVerif.C15.capacity'],
-        'C16': [],
+        'C16': ['EdbVerif.C16.no_lost_wakeup', 'EdbVerif.C16.waiters_consistent', 'EdbVerif.C16.waiters_step',
+                'EdbVerif.C16.abort_all', 'EdbVerif.C16.aborted_request_completes', 'EdbVerif.C16.woken_empty',
+                'EdbVerif.C16.C16_partial', 'EdbVerif.C16.C16_counterexample_gc_race',
+                'EdbVerif.C16.C16_counterexample_tick_shrink'],
     }[which]
     proved = ctx.proof_stage(props, [f'EdbVerif.Props.{which}', 'Driver.C15'], required=required)
     ctx.log('proof stage:', 'ok' if proved else ctx.proof['broken'])
@@ -1348,16 +1351,16 @@ def run_check(ctx: 'core.Ctx', which: str):
         detail_base = {'cfg': cd, 'trace': res['trace'], 'final': res['final'], 'case': label}
         for (k, what, step) in res['problems']:
             k2 = KEY_RENAME.get(k, k)
-            if k in mine:
+            if k in mine or (k.startswith('task-exception:') and which == 'C16'):
                 if k2 not in seen_problem_keys:
                     seen_problem_keys[k2] = label
                     d = dict(detail_base)
                     d['at_step'] = step
                     d['trace'] = res['trace'][:step + 1]
                     ctx.fail(k2, what, d)
-            if k in other and k not in mine:
+            if (k in other and k not in mine) or (k.startswith('task-exception:') and which == 'C15'):
                 others_seen[k2] = others_seen.get(k2, 0) + 1
-            if k not in mine and k not in other:
+            if k not in mine and k not in other and not k.startswith('task-exception:'):
                 ctx.fail('unclassified:' + k, what, detail_base, no_input=True)
         if which == 'C16':
             hung = res['stuck'] or (res['waiting'] if not res['stuck'] else None)
